@@ -6,8 +6,8 @@ import impl_hist  # noqa: F401
 from framework import Case
 
 PROP = "C12"
-GENERATED = ['SharedState', 'Core', 'Wrapper', 'SrcDecorate', 'Decorate', 'EvalLoop', 'OpSemantics']  # generated files this check's tie depends on
-LEAN_MODULES = ["Properties.C12", "Properties.Core", "Properties.CoreWrap", "Properties.Prov.Decorate", "Properties.CoreDecorate", "Properties.CoreEval", "Properties.Tables"]
+GENERATED = ['SharedState', 'Core', 'Wrapper', 'SrcDecorate', 'Decorate', 'EvalLoop', 'OpSemantics', 'Resolve']  # generated files this check's tie depends on
+LEAN_MODULES = ["Properties.C12", "Properties.Core", "Properties.CoreWrap", "Properties.Prov.Decorate", "Properties.CoreDecorate", "Properties.CoreEval", "Properties.Tables", "Properties.CoreResolve"]
 RULE = (
     "corpus; histories over functions and methods with a provider object / \"self\" / an object (or a string other than \"self\") that does not implement the protocol / "
     "\"self\" on a function without self, the same method through two instances with mappings of their own: provider mappings empty, binding used and unused names, conflicting with a literal, referred to "
